@@ -6,6 +6,7 @@
 #pragma once
 
 #include <ygm/comm.hpp>
+#include <ygm/detail/verif_hooks.hpp>
 
 namespace ygm {
 
@@ -15,10 +16,12 @@ class interrupt_mask {
  public:
   interrupt_mask(ygm::comm &c) : m_comm(c) {
     m_comm.m_enable_interrupts = false;
+    YGM_VERIF_HOOK("im+", 0, 0, 0);
   }
 
   ~interrupt_mask() {
     m_comm.m_enable_interrupts = true;
+    YGM_VERIF_HOOK("im-", 0, 0, 0);
     // m_comm.process_receive_queue();  //causes recursion into
     // process_receive_queue
   }
